@@ -277,6 +277,7 @@ type c17Obs struct {
 	sentAll    map[string]bool
 	refused    int
 	refusedMD  []string
+	sendLog    []string // per producer call, in completion order: "<md>:ok" / "<md>:refused"
 	arrival    map[string]time.Duration
 	shutdownAt bool
 	violations []string
@@ -395,8 +396,10 @@ func c17Body(c *c17Case, o *c17Obs) func() {
 					if err != nil {
 						o.refused++
 						o.refusedMD = append(o.refusedMD, sd.MD)
+						o.sendLog = append(o.sendLog, sd.MD+":refused")
 						continue
 					}
+					o.sendLog = append(o.sendLog, sd.MD+":ok")
 					if !o.shutdownAt {
 						now := vs.Now().Sub(t0)
 						for _, id := range ids {
@@ -501,6 +504,24 @@ func c17Check(c *c17Case, o *c17Obs) (string, string) {
 	for _, it := range o.accepted {
 		if count[it] != 1 {
 			return "item-lost", fmt.Sprintf("%s: item %s accepted before shutdown began, emitted %d times by the time Shutdown returned", desc, it, count[it])
+		}
+	}
+	if len(c.Keys) > 0 && len(c.Producers) == 1 && !c.Concurrent {
+		// one producer, shutdown after it: the arrivals are a sequence, and which of them is refused is a function of it -
+		// a combination is refused iff it is new and `limit` combinations exist already; nothing else is ever refused
+		groups := map[string]bool{}
+		var want []string
+		for _, sd := range c.Producers[0] {
+			switch {
+			case groups[sd.MD] || c.Limit == 0 || len(groups) < int(c.Limit):
+				groups[sd.MD] = true
+				want = append(want, sd.MD+":ok")
+			default:
+				want = append(want, sd.MD+":refused")
+			}
+		}
+		if fmt.Sprint(want) != fmt.Sprint(o.sendLog) {
+			return "metadata-admission-differs", fmt.Sprintf("%s: arrivals were answered %v, the cardinality rule prescribes %v", desc, o.sendLog, want)
 		}
 	}
 	if c.Limit > 0 && len(c.Keys) > 0 {
@@ -727,6 +748,46 @@ func TestVerif(t *testing.T) {
 	cases = append(cases, &c17Case{Signal: "metrics", Size: 2, Max: 0, TimeoutMs: 1000, Keys: []string{"k"}, Producers: [][]c17Send{{{Shape: one(1), MD: ""}}, {{Shape: one(1), MD: "<empty>"}}}, Concurrent: false})
 	for _, c := range cases {
 		explore(c, bound, "concurrent")
+	}
+	// (c) every sequence of <= seq arrivals over three metadata values (and "none") x cardinality limit 0/1/2, one producer,
+	// default schedule: admission (which arrival is refused), conservation and isolation as a function of the sequence
+	mdAlpha := []string{"a", "b", "c", ""}
+	var mdSeqs [][]string
+	var recMD func(cur []string)
+	recMD = func(cur []string) {
+		if len(cur) > 0 {
+			mdSeqs = append(mdSeqs, append([]string(nil), cur...))
+		}
+		if len(cur) == ctx.Param("mdseq", 4) {
+			return
+		}
+		for _, a := range mdAlpha {
+			recMD(append(cur, a))
+		}
+	}
+	recMD(nil)
+	for _, lim := range []uint32{0, 1, 2} {
+		for _, sq := range mdSeqs {
+			n++
+			if !ctx.Mine(n) {
+				continue
+			}
+			var sends []c17Send
+			for _, md := range sq {
+				sends = append(sends, c17Send{Shape: one(1), MD: md})
+			}
+			c := &c17Case{Signal: "logs", Size: 2, Max: 0, TimeoutMs: 1000, Keys: []string{"k"}, Limit: lim, Producers: [][]c17Send{sends}, Concurrent: false}
+			var o c17Obs
+			sc := vs.Run(nil, c17Body(c, &o))
+			sg, what := c17Verdict(c, &o, sc)
+			ctx.R.Evals++
+			ctx.R.Traces++
+			ctx.R.Trans += int64(sc.Steps)
+			ctx.Outcome(fmt.Sprintf("metadata-seq:refused=%d", o.refused))
+			if sg != "" {
+				ctx.Violate(sg, what, c17Replay{c, nil})
+			}
+		}
 	}
 	ctx.R.States = ctx.R.Evals + nodes
 	ctx.R.Extra["bound_completed"] = bound
